@@ -1287,11 +1287,12 @@ fn main() {
 
     let mut summary = Summary::new("C17");
     let mut coq_cases: Vec<String> = vec![];
-    let mut distinct: BTreeSet<u64> = BTreeSet::new();
+    let distinct: std::cell::RefCell<BTreeSet<u64>> = std::cell::RefCell::new(BTreeSet::new());
+    let mut n_model: u64 = 0;
     let mut n_eval: u64 = 0;
     let mut model_budget_exh: usize = if thorough { 12000 } else { 2500 };
 
-    let mut record = |out: CaseOut, to_model: bool, summary: &mut Summary, coq_cases: &mut Vec<String>| {
+    let record = |out: CaseOut, to_model: bool, summary: &mut Summary, coq_cases: &mut Vec<String>| {
         let i = summary.case_descs.len();
         let acts_json: Vec<String> = out.acts.iter().map(|a| format!("\"{}\"", a.label())).collect();
         let desc = format!(
@@ -1315,7 +1316,7 @@ fn main() {
         // non-trivial: at least one response was delivered while a challenge was outstanding
         // on some connection, i.e. the run reached a verdict (accept or reject) of the handshake
         if out.accepted + out.rejected > 0 {
-            if distinct.insert(fnv(&out.model_acts)) {
+            if distinct.borrow_mut().insert(fnv(&out.model_acts)) {
                 summary.nontrivial += 1;
             }
         }
@@ -1367,7 +1368,7 @@ fn main() {
                 record(finish(c, "exhaustive", p), true, &mut summary, &mut coq_cases);
             } else {
                 summary.count("kind", "exhaustive(oracle only)");
-                if c.accepted_count + c.rejected_count > 0 {
+                if c.accepted_count + c.rejected_count > 0 && distinct.borrow_mut().insert(fnv(&c.model_acts)) {
                     summary.nontrivial += 1;
                 }
                 for t in &c.tags {
@@ -1416,5 +1417,19 @@ fn main() {
     )
     .unwrap();
     summary.case_files = files;
+    for c in &coq_cases {
+        if c != "([], [])" {
+            n_model += 1;
+        }
+    }
+    summary.notes.push(format!(
+        "{} of the {} runs were also compared step by step with the Coq model; all of them were judged by the direct oracle",
+        n_model, n_eval
+    ));
     summary.write(&args.out);
+    // bin/check reads `model_cases` for the wording of the correspondence obligation
+    let path = format!("{}/summary.json", args.out);
+    let text = std::fs::read_to_string(&path).unwrap();
+    let text = text.replacen("{\n", &format!("{{\n\"model_cases\": {},\n", n_model), 1);
+    std::fs::write(&path, text).unwrap();
 }
